@@ -159,6 +159,27 @@ def check_case(sink, c, o):  # noqa: C901
             il = optree.tree_is_leaf(x, **kw)
             lx, sx = optree.tree_flatten(x, **kw)
             sink.check(il == (len(lx) == 1 and lx[0] is x and sx.is_leaf()), 'tree_is_leaf/subobject', 'tree_is_leaf(x) iff flatten(x) == ([x], leaf spec)', ident, lambda: (x, il))
+    # right afterwards, a twin with an EQUAL treespec but other key objects / insertion order (6 vs 6.0, shuffled dicts): paths and accessors
+    # are those of the twin, not of whatever was traversed before
+    if c.index % 3 == 0:
+        rng_tw = gen.case_rng(c.seed, 'c03twin', c.index)
+        d_tw, n_ed = gen.neutral_edit(c.desc, rng_tw)
+        if n_ed:
+            twin, _ = gen.materialize(d_tw, rng_tw)
+            with o.ctx():
+                acc_t, lv_t, sp_t = optree.tree_flatten_with_accessor(twin, **kw)
+                paths_t, lv_t2, _ = optree.tree_flatten_with_path(twin, **kw)
+                acc_t2 = optree.tree_accessors(twin, **kw)
+                ok_t = (_ids(lv_t) == _ids(lv_t2) and _paths_eq([a.path for a in acc_t], paths_t) and _paths_eq([a.path for a in acc_t2], paths_t)
+                        and _paths_eq(sp_t.paths(), paths_t) and _paths_eq([a.path for a in sp_t.accessors()], paths_t))
+                hit = True
+                try:
+                    hit = all(a(twin) is l for a, l in zip(acc_t, lv_t)) and all(a(twin) is l for a, l in zip(acc_t2, lv_t))
+                except Exception as e:  # noqa: BLE001
+                    hit = repr(e)
+            sink.check(ok_t and hit is True, 'twin-afterwards/paths-accessors', 'paths and accessors of a tree with an equal treespec traversed right after are its own (key objects, order, reachability)', ident,
+                       lambda: dict(hit=hit, paths=paths_t[:6], acc=[a.path for a in acc_t][:6]))
+            sink.count('equal-twins')
     sink.cell(o.none_is_leaf, o.namespace or 'global', o.pred, o.dict_mode)
     ref_like = spec.num_nodes - spec.num_leaves
     sink.case(harness.fp(c.desc.short(), o.key()), ref_like >= 2 or bool(c.mat.hist_classes), dict(ident, num_leaves=n, treespec=str(spec)[:200]))
@@ -311,6 +332,7 @@ def run_shard(sink, tier, seed, shard):
 def finalize(sink, tier, seed):
     sink.require('oracle:tree_iter returns the identical leaves as tree_flatten')
     sink.require('reduce-cases')
+    sink.require('equal-twins', 100)
     sink.require('reduce-seq-cases', 100)
     sink.require('all_leaves-false-cases', 100)
     sink.require('reduce-empty-trees')
